@@ -13,6 +13,8 @@ CONSTANTS
   FIX_TRYREMOVE_LOADING = FALSE
   FIX_ADD_CLOSED = FALSE
   FIX_TRYREMOVE_ERR = FALSE
+  CloseDeadline = TRUE
+  BOUND_LOADS = FALSE
   Loose = FALSE
 VIEW GenView
 INVARIANT EmitAll
